@@ -45,7 +45,7 @@ ROUTE = {
     "disp": "disp",
     "ppphdr": "ppp", "pppopts": "ppp", "papreq": "ppp", "papmsg": "ppp", "chapchal": "ppp", "chapresp": "ppp", "echo": "ppp",
     "rtopts": "ppp", "papbld": "ppp", "chapbld": "ppp",
-    "tags": "tags", "bldtags": "tags", "bldavp": "l2tp", "bldl2": "l2tp", "bldrelay": "relay", "bld82": "relay", "bldd6": "dhcp6", "bldd4": "local",
+    "tags": "tags", "bldtags": "tags", "cookie": "tags", "chalresp": "l2tp", "bldavp": "l2tp", "bldl2": "l2tp", "bldrelay": "relay", "bld82": "relay", "bldd6": "dhcp6", "bldd4": "local",
     "l2hdr": "l2tp", "l2avp": "l2tp", "l2v3": "l2tp",
     "d6msg": "dhcp6", "d6relay": "dhcp6", "d6reply": "dhcp6",
     "o82ins": "relay", "o82strip": "relay", "setopt": "relay", "getopt": "relay", "v6unwrap": "relay", "v6txid": "relay",
@@ -722,6 +722,34 @@ def gen_cases(rng, tier, budget):
                     add(case("tags", [], be16(0x0105) + be16(len(v2)) + v2))
     family(rng, tier, gen_tags, nv, 2 * nm, lambda b: add(case("tags", [], b)))
 
+    # AC-Cookie validation: right / wrong length, stale / fresh timestamp, right / flipped HMAC (timestamps are fixed far in
+    # the past / future so that the case list is the same on every run)
+    ck_mac, ck_key = b"\xaa\xbb\xcc\x00\x00\x01", b"c07-cookie-secret"
+    def ck_case(ts, n=36, flip=None, good=True):
+        tsb = be32(ts)
+        sig = _hmac.new(ck_key, ck_mac + be16(100) + be16(0) + tsb, hashlib.sha256).digest()
+        c = bytearray((sig if good else rb(rng, 32)) + tsb)
+        if flip is not None:
+            c[flip] ^= 1
+        c = bytes(c)[:n] if n <= 36 else bytes(c) + rb(rng, n - 36)
+        d = _hmac.new(ck_key, ck_mac + be16(100) + be16(0) + c[32:36], hashlib.sha256).digest() if len(c) == 36 else b""
+        fresh = 1 if len(c) == 36 and int.from_bytes(c[32:36], "big") >= 4000000000 else 0
+        add(case("cookie", [fresh], c, d))
+    for ts in (4102444800, 4294967295, 1000, 0):
+        ck_case(ts)
+        ck_case(ts, good=False)
+        for n in (0, 1, 31, 32, 35, 37, 40):
+            ck_case(ts, n=n)
+        for fl in (0, 17, 31):
+            ck_case(ts, flip=fl)
+    for s2 in short_strings("quick", False):
+        add(case("cookie", [0], s2, b""))
+    # L2TP challenge response: lengths around 16, right / wrong digest, trailing bytes
+    cr_exp = hashlib.md5(bytes([3]) + b"secret" + b"0123456789abcdef").digest()
+    for n in range(0, 20):
+        add(case("chalresp", [], cr_exp[:n] + bytes(max(0, n - 16)), cr_exp))
+        add(case("chalresp", [], rb(rng, n), cr_exp))
+    add(case("chalresp", [], cr_exp + b"trailing", cr_exp))
     # --- L2TP ----------------------------------------------------------------------------------------------------------
     for s in short_strings(tier, True):
         add(case("l2v3", [], s))
@@ -1160,6 +1188,13 @@ def classify(case_line, impl, model):
 
 def shrink(case_line):
     t = case_line.split()
+    if t[0] in ("l2seq", "fzseq", "fzipoe", "radex"):
+        keep = 3 if t[0] == "l2seq" else (2 if t[0] != "radex" else 3)
+        steps = t[keep:]
+        step = 3 if t[0] == "radex" else 1
+        for i in range(len(steps) - step, -1, -step):
+            yield " ".join(t[:keep] + steps[:i] + steps[i + step:])
+        return
     if t[0].startswith("bkev") or t[0] == "bkpadr":
         b = _payload(case_line)
         for i in range(len(b) - 1, -1, -1):
